@@ -9,11 +9,11 @@
    reached by any sequence of operations interleaved with recorded runs; `valid` (the loader's verdict on a text),
    `meta_ok` and the DAGs directory `dir` are universally quantified too.
 
-   Statements that are FALSE of the pinned code are kept as comments next to their `_refuted` theorem:
-     C18_rename_fresh  (F18a: DAGStore.Rename is a bare os.Rename)
-     C18_save_atomic   (F18b: os.WriteFile truncates before it writes)
-   and the rename / delete theorems carry the per-name premise name_okb (the three name -> path rules of the
-   code agree on the name: no foreign extension), refuted without it (F18c). *)
+   C18_rename_fresh and C18_save_atomic were refuted of the pinned tree (F18a: DAGStore.Rename was a bare os.Rename;
+   F18b: os.WriteFile truncates before it writes); since the repairs 87dde6e / e29932b the model describes the
+   repaired code and the FULL statements are proved; the former witnesses are positive Examples.
+   The rename-carries / delete-other-DAG theorems carry the per-name premise name_okb (the three name -> path
+   rules of the code agree on the name: no foreign extension) and are refuted without it (F18c, not repaired). *)
 From Coq Require Import List String ZArith.
 Import ListNotations.
 From BD.DagStore Require Import Model Proofs.
@@ -37,27 +37,15 @@ Theorem C18_create_new : forall valid meta_ok dir (w : world) n s,
 Proof. exact create_new. Qed.
 Print Assumptions C18_create_new.
 
-(* C18_rename_fresh - full statement, FALSE (F18a):
-     forall w old new, file_loc dir old <> file_loc dir new -> fs_get (file_loc dir new) (w_defs w) <> None ->
-       step_res w (ORename old new) <> ROk /\ step_w w (ORename old new) = w. *)
-Theorem C18_rename_fresh_refuted :
-  exists valid meta dir w old new,
-    file_loc dir old <> file_loc dir new /\ fs_get (file_loc dir new) (w_defs w) <> None /\
-    name_okb dir old = true /\ name_okb dir new = true /\
-    step_res valid meta dir w (ORename old new) = ROk /\
-    fs_get (file_loc dir new) (w_defs (step_w valid meta dir w (ORename old new))) <> fs_get (file_loc dir new) (w_defs w) /\
-    List.length (h_get (dag_loc dir new) (w_hist (step_w valid meta dir w (ORename old new)))) = 2%nat.
-Proof. exact rename_fresh_refuted. Qed.
-Print Assumptions C18_rename_fresh_refuted.
-
-(* What does hold: with the target name free (the excluded class as explicit premise), a rename loses or changes
-   no definition other than its source ... *)
-Theorem C18_rename_fresh_partial : forall valid meta_ok dir (w : world) old new q b,
-  fs_get (file_loc dir new) (w_defs w) = None ->
-  q <> file_loc dir old -> fs_get q (w_defs w) = Some b ->
-  fs_get q (w_defs (step_w valid meta_ok dir w (ORename old new))) = Some b.
-Proof. exact rename_fresh_partial. Qed.
-Print Assumptions C18_rename_fresh_partial.
+(* Rename - through the client or the store alone - onto a name that another definition has is refused and
+   changes nothing: no definition, no history, no flag (full statement; no premise on the names). *)
+Theorem C18_rename_fresh : forall valid meta_ok dir (w : world) old new,
+  file_loc dir old <> file_loc dir new -> fs_get (file_loc dir new) (w_defs w) <> None ->
+  step_res valid meta_ok dir w (ORename old new) <> ROk /\
+  step_w valid meta_ok dir w (ORename old new) = w /\
+  step valid meta_ok dir w (OStoreRename old new) = (w, RExists, []).
+Proof. exact rename_fresh. Qed.
+Print Assumptions C18_rename_fresh.
 
 (* ... and in every case (client or store level, accepted or not) only the source and the target can change. *)
 Theorem C18_rename_others_untouched : forall valid meta_ok dir (w : world) old new q,
@@ -92,51 +80,48 @@ Theorem C18_defs_always_valid : forall valid meta_ok dir tmpl, valid tmpl = true
 Proof. exact defs_always_valid. Qed.
 Print Assumptions C18_defs_always_valid.
 
-(* C18_save_atomic - full statement, FALSE (F18b): forall f n s cut t,
-     fs_get (file_loc dir n) (crash_fs valid dir f n s cut t) = fs_get (file_loc dir n) f \/
-     fs_get (file_loc dir n) (crash_fs valid dir f n s cut t) = Some s. *)
-Theorem C18_save_atomic_refuted :
-  exists valid dir f n s cut t,
-    fs_get (file_loc dir n) (crash_fs valid dir f n s cut t) <> fs_get (file_loc dir n) f /\
-    fs_get (file_loc dir n) (crash_fs valid dir f n s cut t) <> Some s /\
-    fs_get (file_loc dir n) (crash_fs valid dir f n s cut t) = Some "".
-Proof. exact save_atomic_refuted. Qed.
-Print Assumptions C18_save_atomic_refuted.
+(* In EVERY crash state of UpdateSpec - cut = number of completed primitive steps of
+   [validate; exists?; create temp; write; chmod; sync; close; rename], t = bytes of a torn write, rnd = the
+   name os.CreateTemp chose - the definition holds the complete old or the complete new text (full statement). *)
+Theorem C18_save_atomic : forall valid dir f n s rnd cut t,
+  fs_get (file_loc dir n) (crash_fs valid dir f n s rnd cut t) = fs_get (file_loc dir n) f \/
+  fs_get (file_loc dir n) (crash_fs valid dir f n s rnd cut t) = Some s.
+Proof. exact save_atomic. Qed.
+Print Assumptions C18_save_atomic.
 
-(* What does hold for EVERY crash state (cut = completed primitive steps, t = bytes of a torn write): the file is
-   the complete old text or a prefix of the new one; *)
-Theorem C18_save_atomic_partial : forall valid dir f n s cut t,
-  fs_get (file_loc dir n) (crash_fs valid dir f n s cut t) = fs_get (file_loc dir n) f \/
-  exists k, fs_get (file_loc dir n) (crash_fs valid dir f n s cut t) = Some (take_str k s).
-Proof. exact crash_old_or_prefix. Qed.
-Print Assumptions C18_save_atomic_partial.
-
-(* outside the window between the truncating open and the end of the write (the excluded class, as explicit
-   premises) it is the complete old resp. the complete new text; a rejected text never opens the window; *)
-Theorem C18_save_atomic_before : forall valid dir f n s cut t,
-  (cut <= 2)%nat -> crash_fs valid dir f n s cut t = f.
-Proof. exact crash_before_open. Qed.
+(* more precisely: old until the final rename, new after it; a rejected text changes nothing at any point *)
+Theorem C18_save_atomic_before : forall valid dir f n s rnd cut t,
+  (cut <= 7)%nat -> fs_get (file_loc dir n) (crash_fs valid dir f n s rnd cut t) = fs_get (file_loc dir n) f.
+Proof. exact crash_before_rename. Qed.
 Print Assumptions C18_save_atomic_before.
 
-Theorem C18_save_atomic_after : forall valid dir f n s cut t,
-  valid s = true -> fs_get (file_loc dir n) f <> None -> (4 <= cut)%nat ->
-  fs_get (file_loc dir n) (crash_fs valid dir f n s cut t) = Some s.
-Proof. exact crash_after_write. Qed.
+Theorem C18_save_atomic_after : forall valid dir f n s rnd cut t,
+  valid s = true -> fs_get (file_loc dir n) f <> None -> (8 <= cut)%nat ->
+  fs_get (file_loc dir n) (crash_fs valid dir f n s rnd cut t) = Some s.
+Proof. exact crash_after_rename. Qed.
 Print Assumptions C18_save_atomic_after.
 
-Theorem C18_save_atomic_rejected : forall valid dir f n s cut t,
-  valid s = false -> crash_fs valid dir f n s cut t = f.
+Theorem C18_save_atomic_rejected : forall valid dir f n s rnd cut t,
+  valid s = false -> crash_fs valid dir f n s rnd cut t = f.
 Proof. exact crash_invalid. Qed.
 Print Assumptions C18_save_atomic_rejected.
 
-(* no crash state touches another file; all steps done = the operation *)
-Theorem C18_save_crash_local : forall valid dir f n s cut t q,
-  q <> file_loc dir n -> fs_get q (crash_fs valid dir f n s cut t) = fs_get q f.
+(* no crash state touches a file other than the definition and the temporary file; the temporary file is never
+   an entry of the DAG listing, whatever else the directory holds; all steps done = the operation *)
+Theorem C18_save_crash_local : forall valid dir f n s rnd cut t q,
+  q <> file_loc dir n -> q <> tmp_of (file_loc dir n) rnd ->
+  fs_get q (crash_fs valid dir f n s rnd cut t) = fs_get q f.
 Proof. exact crash_others_untouched. Qed.
 Print Assumptions C18_save_crash_local.
 
-Theorem C18_save_crash_complete : forall valid meta_ok dir (w : world) n s cut t, (5 <= cut)%nat ->
-  crash_fs valid dir (w_defs w) n s cut t = w_defs (step_w valid meta_ok dir w (OSave n s)).
+Theorem C18_save_temp_not_listed : forall meta_ok dir g p rnd,
+  plain_str rnd = true -> list_entry meta_ok dir g (tmp_of p rnd) = None.
+Proof. exact tmp_never_listed. Qed.
+Print Assumptions C18_save_temp_not_listed.
+
+Theorem C18_save_crash_complete : forall valid meta_ok dir (w : world) n s rnd cut t q, (8 <= cut)%nat ->
+  fs_get (tmp_of (file_loc dir n) rnd) (w_defs w) = None ->
+  fs_get q (crash_fs valid dir (w_defs w) n s rnd cut t) = fs_get q (w_defs (step_w valid meta_ok dir w (OSave n s))).
 Proof. exact crash_complete. Qed.
 Print Assumptions C18_save_crash_complete.
 
@@ -150,6 +135,7 @@ Theorem C18_rename_carries : forall valid meta_ok dir (w : world) old new,
   fs_get (file_loc dir new) (w_defs w') = fs_get (file_loc dir old) (w_defs w) /\
   fs_get (file_loc dir old) (w_defs w) <> None /\
   (file_loc dir old <> file_loc dir new ->
+     fs_get (file_loc dir new) (w_defs w) = None /\
      fs_get (file_loc dir old) (w_defs w') = None /\
      h_get (dag_loc dir new) (w_hist w') = (h_get (dag_loc dir old) (w_hist w) ++ h_get (dag_loc dir new) (w_hist w))%list /\
      h_get (dag_loc dir old) (w_hist w') = []) /\
@@ -224,8 +210,20 @@ Example C18_ex_delete :
   h_get "/d/b.yaml" (w_hist (step_w all_valid all_valid "/d" w_two (ODelete "a" (dag_loc "/d" "a")))) = [mkRun 200 [mkStatus "rb" 2 []]].
 Proof. exact ex_delete_local. Qed.
 
-Example C18_ex_crash_states :
-  map (fun cut => fs_get "/d/a.yaml" (crash_fs all_valid "/d" [("/d/a.yaml", "old")] "a" "new" cut 9)) [0; 1; 2; 3; 4; 5]%nat
-  = [Some "old"; Some "old"; Some "old"; Some ""; Some "new"; Some "new"] /\
-  fs_get "/d/a.yaml" (crash_fs all_valid "/d" [("/d/a.yaml", "old")] "a" "new" 3 2) = Some "ne".
-Proof. exact ex_crash_states. Qed.
+(* the inputs that refuted C18_rename_fresh / C18_save_atomic on the pinned tree, now positive *)
+Example C18_ex_rename_fresh :
+  file_loc "/d" "a" <> file_loc "/d" "b" /\ fs_get (file_loc "/d" "b") (w_defs w_two) <> None /\
+  step all_valid all_valid "/d" w_two (ORename "a" "b") = (w_two, RExists, []) /\
+  step all_valid all_valid "/d" w_two (OStoreRename "a" "b") = (w_two, RExists, []).
+Proof. exact ex_rename_fresh. Qed.
+
+Example C18_ex_save_atomic :
+  map (fun cut => fs_get "/d/a.yaml" (crash_fs all_valid "/d" [("/d/a.yaml", "old text")] "a" "new text" "42" cut 0))
+      [0; 1; 2; 3; 4; 5; 6; 7; 8; 9]%nat
+  = [Some "old text"; Some "old text"; Some "old text"; Some "old text"; Some "old text"; Some "old text";
+     Some "old text"; Some "old text"; Some "new text"; Some "new text"] /\
+  crash_fs all_valid "/d" [("/d/a.yaml", "old text")] "a" "new text" "42" 3 4
+  = [("/d/a.yaml", "old text"); ("/d/a.yaml.tmp-42", "new ")] /\
+  snd (step all_valid all_valid "/d" (mkW (crash_fs all_valid "/d" [("/d/a.yaml", "old text")] "a" "new text" "42" 5 0) [] []) OList)
+  = ["a.yaml"].
+Proof. exact ex_save_atomic. Qed.
